@@ -135,6 +135,40 @@ def inputs(ctx):
                                  {"tc": _tc(1300 - words), "drop": drop, "syms": a}]
                     ins.append({"id": "o%d" % n, "lines": lines, "doubled": dbl, "offset": 0})
                     n += 1
+    # how a stream ends and how the screen is cleared: a load that never gets its End-Of-Caption
+    # (nothing more appears; a displayed caption keeps its end / the four-second default), and an
+    # End-Of-Caption with nothing loaded (the displayed caption ends there), as the very next words
+    # after a line that ends with End-Of-Caption, with and without a following load
+    for dbl in (False, True):
+        for drop in (False, True):
+            for first in ("erased", "open"):
+                for tail in ("load", "load-rcl-only", "flip", "flip-then-load", "rcl-flip-enm", "flip-flip"):
+                    a = [{"k": "ENM"}, {"k": "RCL"}] + _load(rng, 14, 1) + [{"k": "EOC"}]
+                    b = [{"k": "ENM"}, {"k": "RCL"}] + _load(rng, 2, 1)
+                    lines = [{"tc": _tc(900), "drop": drop, "syms": a}]
+                    if first == "erased":
+                        lines.append({"tc": _tc(960), "drop": drop, "syms": [{"k": "EDM"}]})
+                    if tail == "load":
+                        lines.append({"tc": _tc(1000), "drop": drop, "syms": b})
+                    elif tail == "load-rcl-only":
+                        lines.append({"tc": _tc(1000), "drop": drop, "syms": [{"k": "RCL"}] + _load(rng, 2, 0)})
+                    elif tail == "flip":
+                        lines.append({"tc": _tc(1000), "drop": drop, "syms": [{"k": "EOC"}]})
+                    elif tail == "flip-then-load":
+                        lines.append({"tc": _tc(1000), "drop": drop, "syms": [{"k": "EOC"}]})
+                        lines.append({"tc": _tc(1100), "drop": drop, "syms": b + [{"k": "EOC"}]})
+                        lines.append({"tc": _tc(1200), "drop": drop, "syms": [{"k": "EOC"}]})
+                    elif tail == "rcl-flip-enm":
+                        lines.append({"tc": _tc(1000), "drop": drop, "syms": [{"k": "RCL"}, {"k": "EOC"}, {"k": "ENM"}]})
+                        lines.append({"tc": _tc(1100), "drop": drop, "syms": b + [{"k": "EOC"}]})
+                    else:
+                        lines.append({"tc": _tc(1000), "drop": drop, "syms": [{"k": "EOC"}]})
+                        # (the swapped-out caption is erased first: without that the second
+                        # End-Of-Caption would bring it back, which is outside "every load erases first")
+                        lines.append({"tc": _tc(1060), "drop": drop, "syms": [{"k": "ENM"}, {"k": "EOC"}]})
+                        lines.append({"tc": _tc(1100), "drop": drop, "syms": b + [{"k": "EOC"}]})
+                    ins.append({"id": "t%d" % n, "lines": lines, "doubled": dbl, "offset": 0})
+                    n += 1
     for k in range(400 if ctx.quick else 60000):
         lines = sccgen.popon_program(rng, drop=None)
         # move the program to a random hour
